@@ -114,15 +114,19 @@ class World:
 
     def key(self, st) -> bytes:
         tree = sandbox.tree() if self.uses_sandbox else ()
-        return canon.key(self.state_objects(st), snapshot.REGISTRY.contents(), tree)
+        delta = snapshot.consts_delta() if snapshot.CONSTS else {}
+        return canon.key(self.state_objects(st), snapshot.REGISTRY.contents(), tree, delta)
 
     def snap(self, st) -> bytes:
         tree = sandbox.tree() if self.uses_sandbox else ()
-        return zlib.compress(snapshot.dumps((st, snapshot.REGISTRY.save(), tree)), 1)
+        delta = snapshot.consts_delta() if snapshot.CONSTS else {}
+        return zlib.compress(snapshot.dumps((st, snapshot.REGISTRY.save(), tree, delta)), 1)
 
     def restore(self, blob: bytes):
-        st, reg, tree = snapshot.loads(zlib.decompress(blob))
+        st, reg, tree, delta = snapshot.loads(zlib.decompress(blob))
         snapshot.REGISTRY.load(reg)
+        if snapshot.CONSTS:
+            snapshot.consts_restore(delta)
         if self.uses_sandbox:
             sandbox.restore(tree)
         return st
@@ -242,7 +246,6 @@ def _pool_expand(chunk):
     out = []
     for idx, blob, k in chunk:
         out.append((idx, expand(_W, blob, k)))
-        canon.verify_consts()
     return out
 
 
@@ -403,7 +406,6 @@ def explore(world: World, *, max_states=2_000_000, max_depth=None, procs=1, vali
                                   **detail)
                     res.violations.append((v, entry, cyc_events, "cycle"))
 
-        canon.verify_consts()
         # root-replay validation: terminals, violating states, stride of interior states
         to_validate = set(terminal_idx[:validate_terminals])
         to_validate.update(i for (_, i, _, _) in res.violations)
